@@ -200,6 +200,8 @@ def check(run, project):
     run.explanation = ("typestate of the pump's look-ahead byte (INIT/FRESH/SENT x depleted x last-yield), fixpoint "
                        "over the CFG with exception edges; each remaining-bytes attach site is evaluated in every "
                        "abstract state that reaches it")
+    from .carriers import check_carriers
+    check_carriers(run, project, "A1", {"bytes_remaining"})
     run.cover(cfg_nodes=len(F.cfg.nodes), node_states=sum(len(s) for s in F.states.values()))
     sites = {}
     for node, st, expr, via in F.attach:
